@@ -18,6 +18,8 @@ typedef struct {
 } hconn_t;
 
 static hconn_t g_conns[MAXCONN];
+/* the chunk of the data call that is currently running, per direction (NULL when none) */
+static const unsigned char *g_live_req, *g_live_res; static size_t g_live_req_len, g_live_res_len;
 static hconn_t *g_cur;    /* connection whose call is running (callbacks find their state here) */
 
 static void ev_append(hconn_t *h, const char *s, size_t n) {
@@ -52,7 +54,16 @@ static int log_event(const char *name, htp_tx_t *tx, int is_data, const unsigned
     int n = snprintf(head, sizeof head, "%s%s/%ld/%d/%d/", h->evlen ? " " : "", name, tx_uid(h, tx),
                      tx ? (int) tx->request_progress : 0, tx ? (int) tx->response_progress : 0);
     ev_append(h, head, n);
+    /* raw header/trailer data always points into the caller's chunk: is that chunk's call still running? */
+    int is_req_raw = !strcmp(name, "request_header_data") || !strcmp(name, "request_trailer_data");
+    int is_res_raw = !strcmp(name, "response_header_data") || !strcmp(name, "response_trailer_data");
+    int stale = 0;
+    if (is_data && data != NULL && (is_req_raw || is_res_raw)) {
+        const unsigned char *lv = is_req_raw ? g_live_req : g_live_res; size_t ll = is_req_raw ? g_live_req_len : g_live_res_len;
+        if (lv == NULL || data < lv || data + len > lv + ll) stale = 1;
+    }
     if (!is_data) ev_append(h, ".", 1);
+    else if (stale) { char g[32]; int m = snprintf(g, sizeof g, "!%zu", len); ev_append(h, g, m); }
     else if (data == NULL) {
         if (len > 0) { char g[32]; int m = snprintf(g, sizeof g, "~%zu", len); ev_append(h, g, m); }
         else ev_append(h, "~", 1);
@@ -71,7 +82,10 @@ static int log_event(const char *name, htp_tx_t *tx, int is_data, const unsigned
         case 1: return HTP_DECLINED;
         case 2: return HTP_STOP;
         case 3: return HTP_ERROR;
-        case 4: if (tx) htp_tx_destroy(tx); return HTP_OK;
+        case 4:
+            /* only the TRANSACTION_COMPLETE callback destroys, and only when the library does not do it itself */
+            if (tx && !strcmp(name, "transaction_complete") && !h->cfg->tx_auto_destroy) htp_tx_destroy(tx);
+            return HTP_OK;
         case 5:
             if (tx) {
                 htp_tx_register_request_body_data(tx, cb_tx_req_body);
@@ -261,8 +275,8 @@ int op_conn(int id, int n, char **t) {
         /* exact-size heap copy so that ASan sees any read past the chunk */
         unsigned char *buf = malloc(al ? al : 1); memcpy(buf, a, al); free(a);
         int rc; size_t consumed;
-        if (t[0][2] == 'q') { rc = htp_connp_req_data(cp, &tv, buf, al); consumed = htp_connp_req_data_consumed(cp); }
-        else { rc = htp_connp_res_data(cp, &tv, buf, al); consumed = htp_connp_res_data_consumed(cp); }
+        if (t[0][2] == 'q') { g_live_req = buf; g_live_req_len = al; rc = htp_connp_req_data(cp, &tv, buf, al); consumed = htp_connp_req_data_consumed(cp); g_live_req = NULL; }
+        else { g_live_res = buf; g_live_res_len = al; rc = htp_connp_res_data(cp, &tv, buf, al); consumed = htp_connp_res_data_consumed(cp); g_live_res = NULL; }
         printf("rc=%d consumed=%zu ev=[%s]", rc, consumed, h->ev ? h->ev : "");
         /* the library may keep pointers into the chunk only during the call */
         free(buf);
@@ -285,6 +299,53 @@ int op_conn(int id, int n, char **t) {
     if (!strcmp(t[0], "reqclose") && n == 1) {
         htp_connp_req_close(cp, &tv);
         printf("rc=%d ev=[%s]", (int) cp->in_status, h->ev ? h->ev : "");
+        return 1;
+    }
+    if (!strcmp(t[0], "play") && n == 2) {
+        /* the hand-over discipline of test/test.c (made total), see lean/Driver/Conn.lean playStep */
+        unsigned char *in_other = NULL, *out_other = NULL; size_t in_len = 0, out_len = 0;
+        int first = 1;
+        char *save = NULL;
+        #define CALL(isreq, ptr, plen) do { \
+            h->evlen = 0; if (h->ev) h->ev[0] = 0; \
+            unsigned char *cb_ = malloc((plen) ? (plen) : 1); memcpy(cb_, (ptr), (plen)); \
+            int rc_; size_t cons_; \
+            if (isreq) { g_live_req = cb_; g_live_req_len = (plen); rc_ = htp_connp_req_data(cp, &tv, cb_, (plen)); cons_ = htp_connp_req_data_consumed(cp); g_live_req = NULL; } \
+            else { g_live_res = cb_; g_live_res_len = (plen); rc_ = htp_connp_res_data(cp, &tv, cb_, (plen)); cons_ = htp_connp_res_data_consumed(cp); g_live_res = NULL; } \
+            printf("%s%s:rc=%d:consumed=%zu:ev=[%s]", first ? "" : " ;; ", (isreq) ? "req" : "res", rc_, cons_, h->ev ? h->ev : ""); \
+            first = 0; \
+            unsigned char **oth_ = (isreq) ? &in_other : &out_other; size_t *ol_ = (isreq) ? &in_len : &out_len; \
+            unsigned char *keep_ = NULL; size_t kl_ = 0; \
+            if (rc_ == HTP_STREAM_DATA_OTHER) { kl_ = (plen) - cons_; keep_ = malloc(kl_ ? kl_ : 1); memcpy(keep_, cb_ + cons_, kl_); } \
+            free(cb_); free(*oth_); *oth_ = keep_; *ol_ = kl_; \
+        } while (0)
+        for (char *it = strtok_r(t[1], ",", &save); it; it = strtok_r(NULL, ",", &save)) {
+            if (it[0] == 'g' && (it[1] == '>' || it[1] == '<')) {
+                size_t k = strtoul(it + 2, NULL, 10);
+                h->evlen = 0; if (h->ev) h->ev[0] = 0;
+                int rc_; size_t cons_;
+                if (it[1] == '>') { rc_ = htp_connp_req_data(cp, &tv, NULL, k); cons_ = htp_connp_req_data_consumed(cp); }
+                else { rc_ = htp_connp_res_data(cp, &tv, NULL, k); cons_ = htp_connp_res_data_consumed(cp); }
+                printf("%s%s:rc=%d:consumed=%zu:ev=[%s]", first ? "" : " ;; ", it[1] == '>' ? "reqgap" : "resgap", rc_, cons_, h->ev ? h->ev : "");
+                first = 0;
+                continue;
+            }
+            unsigned char *a; long al = hex_parse(it + 1, &a);
+            if (al < 0 || (it[0] != '>' && it[0] != '<')) { free(in_other); free(out_other); return 0; }
+            if (it[0] == '>') {
+                if (in_other) { in_other = realloc(in_other, in_len + al + 1); memcpy(in_other + in_len, a, al); in_len += al; }
+                else CALL(1, a, (size_t) al);
+            } else {
+                if (out_other) { unsigned char *hd = out_other; size_t hl = out_len; out_other = NULL; out_len = 0; CALL(0, hd, hl); free(hd); }
+                if (out_other) { out_other = realloc(out_other, out_len + al + 1); memcpy(out_other + out_len, a, al); out_len += al; }
+                else CALL(0, a, (size_t) al);
+                if (in_other) { unsigned char *hd = in_other; size_t hl = in_len; in_other = NULL; in_len = 0; CALL(1, hd, hl); free(hd); }
+            }
+            free(a);
+        }
+        if (out_other) { unsigned char *hd = out_other; size_t hl = out_len; out_other = NULL; out_len = 0; CALL(0, hd, hl); free(hd); }
+        if (in_other) { unsigned char *hd = in_other; size_t hl = in_len; in_other = NULL; in_len = 0; CALL(1, hd, hl); free(hd); }
+        free(in_other); free(out_other);
         return 1;
     }
     if (!strcmp(t[0], "txfreed") && n == 1) { printf("%zu", htp_connp_tx_freed(cp)); return 1; }
